@@ -12,8 +12,6 @@
 #include "utils_private.h"
 #include "mc.h"
 
-size_t UInt32ToStrBaseSign(uint32_t val, char * str, size_t len, int8_t base, scpi_bool_t sign);
-size_t UInt64ToStrBaseSign(uint64_t val, char * str, size_t len, int8_t base, scpi_bool_t sign);
 
 static int ref_fmt(uint64_t val, int bits, int base, int sign, char * out) {
     char tmp[80];
